@@ -996,6 +996,7 @@ impl SenderInner<SenderLink<Target>> {
         let mut resend_buf = Vec::new();
 
         loop {
+            self.link.flow_state.as_ref().on_reattach();
             let attach_exchange = match initial_remote_attach.take() {
                 Some(remote_attach) => {
                     self.link
